@@ -2600,3 +2600,101 @@ def fiber_program(cfg=None):
     return st.one_of(kpn.network(False, hz).map(kpn.build_program),
                      kpn.network(True, hz).map(kpn.build_program),
                      kpn_many.many_network(hz).map(kpn_many.build_program))
+
+
+# ======================================================================================
+# cross module cache scenario (C13): call sites and classes spread over two modules
+# ======================================================================================
+class GX(G):
+    """lib exports two unrelated classes with the same method and field names, and helper functions each holding
+    one invoke / property site (declared in a drawn order, so their inline cache slot numbers vary); main imports
+    them, derives classes whose methods call super (fused super invoke, with and without arguments), has call-site
+    helpers of its own, and drives a drawn history of receivers through the sites of both modules. Every inline
+    cache slot number therefore exists in both modules with a different meaning."""
+
+    def __init__(self, draw, cfg=None):
+        G.__init__(self, draw, cfg or Cfg(max_depth=2, p_confuse=0))
+
+    def scenario(self):
+        def ret(s):
+            return [("implicit", ("str", s))] if self.chance(50) else [("return", ("str", s))]
+
+        def cls(name, fields, tag):
+            init = ("init", [], [("expr", ("assign", ("prop", ("self",), f), ("num", float(i + tag)))) for i, f in enumerate(fields)])
+            methods = [(m, [], ret("%s.%s" % (name, m))) for m in ("m1", "m2", "m3")]
+            methods.append(("m4", ["a"], [("return", ("bin", "+", ("str", "%s.m4 " % name), ("call", ("prop", ("var", "a"), "str"), [])))]))
+            return ("class", name, None, init, methods, [])
+
+        fa = ["a", "b"] if self.chance(50) else ["b", "a"]
+        lib = [("export", cls("Base", fa, 1)), ("export", cls("Other", fa[::-1], 5))]
+        helpers = [("call1", ("call", ("prop", ("var", "o"), "m1"), [])),
+                   ("call2", ("call", ("prop", ("var", "o"), "m2"), [])),
+                   ("call3", ("call", ("prop", ("var", "o"), "m3"), [])),
+                   ("call4", ("call", ("prop", ("var", "o"), "m4"), [("num", 7.0)])),
+                   ("geta", ("prop", ("var", "o"), "a")),
+                   ("getb", ("prop", ("var", "o"), "b"))]
+        # drawn order and a drawn subset, so that slot numbers differ from case to case
+        order = list(range(len(helpers)))
+        for i in range(len(order) - 1, 0, -1):
+            j = self.i(0, i)
+            order[i], order[j] = order[j], order[i]
+        keep = [helpers[i] for i in order[:self.i(3, len(helpers))]]
+        for (n, e) in keep:
+            lib.append(("export", ("fn", n, ["o"], [("implicit", e)])))
+        main = [("import", ["self", "lib"], ("syms", [("Base", None), ("Other", None)] + [(n, None) for (n, _e) in keep]))]
+        # derived classes in main
+        def derived(name, parent, pname):
+            ms = []
+            pool = ["m1", "m2", "m3"]
+            for m in pool:
+                c = self.i(0, 3)
+                if c == 0:
+                    continue  # inherited
+                if c == 1:
+                    ms.append((m, [], [("return", ("bin", "+", ("str", "%s.%s>" % (name, m)), ("call", ("super", m), [])))]))
+                elif c == 2:
+                    other = self.pick(pool)
+                    ms.append((m, [], [("return", ("bin", "+", ("str", "%s.%s>>" % (name, m)), ("call", ("super", other), [])))]))
+                else:
+                    ms.append((m, [], ret("%s.%s" % (name, m))))
+            if self.chance(50):
+                ms.append(("m4", ["a"], [("return", ("bin", "+", ("str", name + ".m4>"), ("call", ("super", "m4"), [("var", "a")])))]))
+            ms.append(("x", [], [("return", ("call", ("super", self.pick(pool)), []))]))
+            init = ("init", [], [("expr", ("call", ("super", "init"), [])),
+                                 ("expr", ("assign", ("prop", ("self",), "c"), ("num", 9.0)))])
+            return ("class", name, parent, init, ms, [])
+        main.append(derived("D1", "Base", "Base"))
+        classes = ["Base", "Other", "D1"]
+        if self.chance(60):
+            main.append(derived("D2", self.pick(["D1", "Other"]), None))
+            classes.append("D2")
+        sites = [("s1", ("call", ("prop", ("var", "o"), "m1"), [])), ("s2", ("call", ("prop", ("var", "o"), "m2"), [])),
+                 ("sx", ("call", ("prop", ("var", "o"), "x"), [])), ("sa", ("prop", ("var", "o"), "a"))]
+        for i in range(len(sites) - 1, 0, -1):
+            j = self.i(0, i)
+            sites[i], sites[j] = sites[j], sites[i]
+        for (n, e) in sites:
+            main.append(("fn", n, ["o"], [("implicit", e)]))
+        objs = []
+        for k, c in enumerate(classes):
+            main.append(("let", "o%d" % k, ("call", ("var", c), [])))
+            objs.append(("o%d" % k, c))
+
+        def guarded(e):
+            return ("try", [("print", e)], [("e", None, [("print", ("call", ("prop", ("call", ("prop", ("var", "e"), "cls"), []), "name"), []))])])
+        fns = [n for (n, _e) in keep] + [n for (n, _e) in sites]
+        for _ in range(self.i(6, 18)):
+            o, c = self.pick(objs)
+            if self.chance(75):
+                main.append(guarded(("call", ("var", self.pick(fns)), [("var", o)])))
+            else:
+                m = self.pick(["m1", "m2", "m3", "x"])
+                main.append(guarded(("call", ("prop", ("var", o), m), [])))
+        return {"files": {"/v/lib.lay": lib}, "main": main}
+
+
+def cross_module_cache_scenario(cfg=None):
+    @st.composite
+    def strat(draw):
+        return GX(draw, cfg).scenario()
+    return strat()
